@@ -297,10 +297,12 @@ def observe(fn, args: dict, rule: Rule, scratch: Path | None):
                 r = fn(**a)
                 res = ("ok", canon(r))
                 observe.raw = ("ok", r)
+                observe.raw_args = a
                 alias = [k for k, v in a.items() if v is r and isinstance(v, (list, dict, set, bytearray))]
             except BaseException as e:  # noqa: BLE001
                 res, alias = ("exc", type(e).__name__), []
                 observe.raw = res
+                observe.raw_args = a
         tree = None
         if scratch is not None:
             tree = sorted((str(p.relative_to(scratch)), p.read_text() if p.is_file() else "<dir>") for p in scratch.rglob("*"))
@@ -436,6 +438,82 @@ MODEL_RULES = {
 MODEL_TYPES = {"int", "bool", "opt_bool", "opt_int", "float", "str", "list_int", "nonempty_list_int", "tuple_int"}
 
 
+# (code, original) -> (model original, model replacement, replacement refurb must print, names whose final
+# contents are compared: "p" = the local name p, "orig_p" = the object passed as p, "=out" = a plain list value)
+HEAP_RULES = {
+    (113, "nums.append(a)\nnums.append(b)"): ("bind (op_append \"nums\" {a} {S}) (op_append \"nums\" {b})", "op_extend \"nums\" [{a}; {b}] {S}", "nums.extend((a, b))", "list"),
+    (131, "del nums[:]"): ("op_del_all \"nums\" {S}", "op_clear \"nums\" {S}", "nums.clear()", "list"),
+    (131, "nums[:] = []"): ("op_assign_all \"nums\" [] {S}", "op_clear \"nums\" {S}", "nums.clear()", "list"),
+    (132, "if x in s:\n    s.remove(x)"): ("lhs_132 \"s\" {x} {S}", "op_set_discard \"s\" {x} {S}", "s.discard(x)", "set"),
+    (142, "for x in xs:\n    s.add(x)"): ("for_each {xs!z} (op_set_add \"s\") {S}", "op_set_update \"s\" {xs!z} {S}", "s.update(xs)", "set"),
+    (142, "for x in xs:\n    s.discard(x)"): ("for_each {xs!z} (op_set_discard \"s\") {S}", "op_set_difference_update \"s\" {xs!z} {S}", "s.difference_update(xs)", "set"),
+    (186, "l = sorted(l)"): ("op_rebind_sorted \"l\" {S}", "op_sort \"l\" {S}", "l.sort()", "list"),
+    (187, "l = l[::-1]"): ("op_rebind_reversed \"l\" {S}", "op_reverse \"l\" {S}", "l.reverse()", "list"),
+    (187, "l = list(reversed(l))"): ("op_rebind_reversed \"l\" {S}", "op_reverse \"l\" {S}", "l.reverse()", "list"),
+}
+
+
+def _zl(xs) -> str:
+    return "[" + "; ".join(f"({int(x)})" for x in xs) + "]%Z"
+
+
+def heap_tie(ctx: Ctx, derived: dict) -> None:
+    """X2 for the statement rules: Lib/PyHeap.v's operations against CPython, through every name."""
+    hdr = ("From Lib Require Import Base PyHeap.\nOpen Scope list_scope.\nOpen Scope string_scope.\nSet Printing Width 100000.\n"
+           "Definition same (as_set : bool) (a b : list Z) := if as_set then list_eqb Z.eqb (isort Z.leb a) (isort Z.leb b) else list_eqb Z.eqb a b.\n"
+           "Definition chk (as_set : bool) (o : option store) (e : option (list (string * list Z))) : bool :=\n"
+           "  match o, e with\n  | Some s, Some l => forallb (fun nv => match contents (fst nv) s with Some c => same as_set c (snd nv) | None => false end) l\n"
+           "  | None, None => true | _, _ => false end.\n"
+           "Definition bad (l : list bool) := (fix go (i : nat) (l : list bool) : list nat := match l with [] => [] | b :: q => if b then go (S i) q else i :: go (S i) q end) 0%nat l.\n")
+    rows, descr = [], []
+    for (r, rhs, envs) in derived.values():
+        m = HEAP_RULES.get((r.code, r.lhs))
+        if m is None:
+            continue
+        ml, mr, _want, kind = m
+        objs = [p for p, t in r.params.items() if t in ("list_int", "set_int", "empty_list")]
+        if any(t not in ("list_int", "set_int", "empty_list", "int") for t in r.params.values()):
+            continue
+        for args, (a, a_after), (c, c_after) in envs:
+            if any(isinstance(v, int) and isinstance(v, bool) for v in args.values()):
+                continue
+            names = "; ".join(f'("{p}", {i + 1}%nat); ("orig_{p}", {i + 1}%nat)' for i, p in enumerate(objs))
+            heap = "; ".join(f"({i + 1}%nat, {_zl(sorted(args[p]) if isinstance(args[p], set) else args[p])})" for i, p in enumerate(objs))
+            store = f"{{| names := [{names}]; objs := [{heap}] |}}"
+
+            def fill(tpl):
+                def sub(mm):
+                    nm, _, conv = mm.group(1).partition("!")
+                    if nm == "S":
+                        return store
+                    return _zl(args[nm]) if conv == "z" else f"({int(args[nm])})%Z"
+                return re.sub(r"\{([A-Za-z!]+)\}", sub, tpl)
+            for side, tpl, (out, after) in (("original", ml, (a, a_after)), ("replacement", mr, (c, c_after))):
+                if out[0] != "ok":
+                    e = "None"
+                else:
+                    loc = out[1]
+                    exp = [(p, loc[p]) for p in objs] + [(f"orig_{p}", after[p]) for p in objs]
+                    e = "(Some [" + "; ".join(f'("{n}", {_zl(sorted(v) if isinstance(v, set) else v)})' for n, v in exp) + "])"
+                rows.append(f"chk {coq.coq_bool(kind == 'set')} ({fill(tpl)}) {e}")
+                descr.append(f"FURB{r.code} {side} of `{r.lhs}` on {args!r}")
+    if not rows:
+        ctx.obligation("correspondence: Lib/PyHeap.v statement rules = CPython (final contents through every name)", False, "no heap rule instance was executed")
+        return
+    shards = ["Eval vm_compute in bad [\n" + ";\n".join(rows[k:k + 800]) + "].\n" for k in range(0, len(rows), 800)]
+    outs = coq.eval_shards(ctx, "pyheap", hdr, shards)
+    bad, err = [], ""
+    for k, (rc, o, e) in enumerate(outs):
+        vals = coq.parse_eval_values(o)
+        if rc != 0 or not vals:
+            err = (e or o)[-400:]
+            continue
+        bad += [k * 800 + int(j) for j in re.findall(r"\d+", vals[0].split(":")[0])]
+    ctx.extra.setdefault("model_tie", {})["heap_rule_rows"] = len(rows)
+    ctx.obligation("correspondence: Lib/PyHeap.v statement rules = CPython (final contents through every name)", not bad and not err,
+                   err or "; ".join(descr[i] for i in bad[:6]))
+
+
 class NotInModel(Exception):
     pass
 
@@ -554,7 +632,7 @@ def model_tie(ctx: Ctx, derived: dict) -> None:
             continue
         ml, mr, want, kind = m
         cmp_ = {"obj": "oveq", "Z": "ozeq", "bool": "obeq"}[kind]
-        for args, a, c in envs:
+        for args, (a, _aa), (c, _ca) in envs:
             try:
                 rows.append(f"{cmp_} ({_fill(ml, args)}) {_expected(kind, a)}")
                 descr.append(f"FURB{r.code} original `{r.lhs}` on {args!r}")
@@ -597,7 +675,7 @@ def run(ctx: Ctx) -> None:
     ctx.rule("every rule instance of the table x the product (sampled to the budget) of its operands' value lists (ints incl. big, floats incl. NaN/+-0.0/inf, strings sharing prefixes/suffixes, "
              "lists with ties, empty containers, a scratch directory for file-system rules); observables: value+type or exception class, operands after the call, stdout, aliasing, directory tree; "
              "non-trivial = environment where the original does not raise; distinct by (rule instance, environment)")
-    b = coq.compile_props(ctx, {}, ["C01"])
+    b = coq.compile_props(ctx, {}, ["C01", "C01Heap"])
     coq.record_build(ctx, b)
     from refurb.main import run_refurb
     from refurb.settings import Settings
@@ -691,18 +769,21 @@ def run(ctx: Ctx) -> None:
             envs: list = []
             derived[i] = (r, rhs, envs)
             mm = MODEL_RULES.get((r.code, r.lhs))
+            hm = HEAP_RULES.get((r.code, r.lhs))
+            if hm is not None and norm(hm[2]) != norm(rhs):
+                stale.append(f"FURB{r.code} `{r.lhs}`: model replacement `{hm[2]}`, refurb prints `{rhs}`")
             if mm is not None and norm(mm[2]) != norm(rhs):
                 stale.append(f"FURB{r.code} `{r.lhs}`: model replacement `{mm[2]}`, refurb prints `{rhs}`")
             for vals in combos:
                 args = dict(zip(r.params, vals))
                 a = observe(lf, args, r, scratch if r.fs else None)
-                raw_a = observe.raw
+                raw_a = (observe.raw, observe.raw_args)
                 c = observe(rf, args, r, scratch if r.fs else None)
-                raw_c = observe.raw
+                raw_c = (observe.raw, observe.raw_args)
                 ctx.case((i, repr(vals)), nontrivial=a["result"][0] == "ok",
                          sample={"rule": f"FURB{r.code}", "original": r.lhs, "replacement": rhs, "env": {k: repr(v) for k, v in args.items()}} if rng.random() < 0.002 else None)
                 ctx.count(f"class-{r.cls}")
-                if mm is not None and len(envs) < 400:
+                if (mm is not None or hm is not None) and len(envs) < 400:
                     envs.append((args, raw_a, raw_c))
                 if a["result"][0] == "exc":
                     continue                 # the property's hypothesis: the original does not raise
@@ -737,6 +818,7 @@ def run(ctx: Ctx) -> None:
         ctx.extra["modelled_rule_instances"] = sorted(f"FURB{r.code} `{r.lhs}` [{','.join(r.params.values())}]" for (r, _, _) in derived.values()
                                                       if (r.code, r.lhs) in MODEL_RULES and set(r.params.values()) <= MODEL_TYPES)
         model_tie(ctx, derived)
+        heap_tie(ctx, derived)
     finally:
         shutil.rmtree(td, ignore_errors=True)
     ctx.resolve_broken({}, b.first_error)
